@@ -1490,8 +1490,51 @@ def _is_mask(idx):
     return isinstance(idx, NdArr) and idx.items and all(isinstance(b, BoolV) for b in idx.items)
 
 
+def _fancy_offsets(ev, x: NdArr, idx):
+    """A tuple of equally long 1-d integer index arrays, one per axis (what np.nonzero returns), or one such array for a
+    1-d x: the flat offsets selected, in order; None if idx is not of that form."""
+    items = idx.items if isinstance(idx, TupleV) else [idx]
+    if not items or not all(isinstance(i, NdArr) and i.ndim == 1 and all(isinstance(e, Num) and e.expr.is_Integer for e in i.items) for i in items):
+        return None
+    if len(items) != x.ndim or len({len(i.items) for i in items}) != 1:
+        return None
+    strides, acc = [], 1
+    for s_ in reversed(x.shape):
+        strides.insert(0, acc)
+        acc *= s_
+    offs = []
+    for k in range(len(items[0].items)):
+        off = 0
+        for ax, it in enumerate(items):
+            v = int(it.items[k].expr)
+            if v < 0:
+                v += x.shape[ax]
+            if not 0 <= v < x.shape[ax]:
+                from .symeval import Raised
+                raise Raised("IndexError", None, "index out of bounds")
+            off += v * strides[ax]
+        offs.append(off)
+    return offs
+
+
+def h_nonzero(ev, args, kwargs, fr, node, flat=False):
+    x = args[0]
+    if isinstance(x, NdArr) and all(isinstance(e, BoolV) for e in x.items):
+        import itertools
+        hits = [c for c, e in zip(itertools.product(*[range(k) for k in x.shape]), x.items) if e.b]
+        if flat:
+            return NdArr((len(hits),), [Num(i) for i, e in enumerate(x.items) if e.b])
+        return TupleV([NdArr((len(hits),), [Num(c[ax]) for c in hits]) for ax in range(x.ndim)])
+    ev.unsupported("np.nonzero of a mask that is not explicit", node, fr)
+
+
 def nd_getitem(ev, x: NdArr, idx, fr, node):
     from .symeval import Raised
+    offs = _fancy_offsets(ev, x, idx)
+    if offs is not None:
+        out = NdArr((len(offs),), [x.items[o] for o in offs])
+        out.dtype = getattr(x, "dtype", None)
+        return out
     if _is_mask(idx) and idx.shape == x.shape:
         sel = [v for v, b in zip(x.items, idx.items) if b.b]
         out = NdArr((len(sel),), sel)
@@ -1625,6 +1668,19 @@ def nd_setitem(ev, x: NdArr, idx, v, fr, node):
         else:
             for i in pos:
                 x.items[i] = v
+        return
+    offs = _fancy_offsets(ev, x, idx)
+    if offs is not None:
+        ev.trace.append(("nd-store", x, idx, v, node))
+        if isinstance(v, NdArr):
+            if len(v.items) != len(offs):
+                from .symeval import Raised
+                raise Raised("ValueError", node, "shape mismatch in indexed assignment")
+            for o, val in zip(offs, v.items):
+                x.items[o] = val
+        else:
+            for o in offs:
+                x.items[o] = v
         return
     items = _norm_index(ev, idx)
     if len(items) > x.ndim:
@@ -3038,6 +3094,7 @@ EXT = {
     "numpy.zeros": h_zeros, "numpy.ones": lambda ev, a, k, fr, n: h_zeros(ev, a, k, fr, n, fill=1),
     "astropy.time.utils.two_sum": lambda ev, a, k, fr, n: h_two_sum(ev, a, k, fr, n),
     "astropy.time.utils.two_product": lambda ev, a, k, fr, n: h_two_product(ev, a, k, fr, n),
+    "numpy.nonzero": lambda ev, a, k, fr, n: h_nonzero(ev, a, k, fr, n), "numpy.flatnonzero": lambda ev, a, k, fr, n: h_nonzero(ev, a, k, fr, n, flat=True),
     "numpy.full": lambda ev, a, k, fr, n: h_full(ev, a, k, fr, n), "numpy.tensordot": lambda ev, a, k, fr, n: h_tensordot(ev, a, k, fr, n),
     "numpy.shape": lambda ev, a, k, fr, n: h_np_shape(ev, a, k, fr, n), "numpy.broadcast_shapes": lambda ev, a, k, fr, n: h_broadcast_shapes(ev, a, k, fr, n),
     "numpy.unravel_index": lambda ev, a, k, fr, n: h_unravel_index(ev, a, k, fr, n),
